@@ -13,7 +13,7 @@ from ..gen import bec2 as GB
 from ..gen import files as G
 from ..load import load
 from ..monitors import Recorder
-from ..refs import container, ecies
+from ..refs import container, ecies, ossl
 from ..refs import layout as L
 
 ID = "C07"
@@ -45,6 +45,9 @@ def plan(tier, seed):
         jobs.append({"name": "splice%02d" % i, "spec": {"kind": "splice", "n": 100 if q else 3000, "i": i}})
     for i in range(2 if q else 8):
         jobs.append({"name": "threads%02d" % i, "spec": {"kind": "threads", "rounds": 3 if q else 40}})
+    # another registered AES implementation (a CBC engine with a chaining register, on OpenSSL) and long-lived encryptor objects
+    for i in range(2 if q else 8):
+        jobs.append({"name": "engine%02d" % i, "spec": {"kind": "engine", "rounds": 40 if q else 1500}})
     return jobs
 
 
@@ -52,7 +55,7 @@ def mandatory_bins(tier):
     b = ["blocks_" + "+".join(l) for l in GB.all_block_lists()]
     b += ["session_key_drawn", "all_blocks_wrap_the_mac_key", "pass_through_rewrite", "rewrite_known_blocks_same_key", "creations_without_key", "counting_rng",
           "ecc_wrap", "ecc_rewrite_same_object", "ephemeral_points_distinct", "splice_accepted_when_keys_equal", "splice_body_under_first_key", "splice_body_under_second_key", "splice_triple", "splice_partial_decryptor_set", "splice_unopened_block_between", "read_with_encrypt_only_ecc_encryptor", "content_of_a_read_file_rewritten_under_a_fresh_key", "encrypted_component_under_the_wrapped_key", "foreign_blocks_of_unknown_kind"]
-    b += ["splice_%s_%s" % (a, c) for a in GB.KINDS for c in GB.KINDS] + ["splice_two_ecc_blocks_for_two_selectors", "splice_block_wraps_a_prefix_of_the_key", "files_written_by_concurrent_threads"]
+    b += ["splice_%s_%s" % (a, c) for a in GB.KINDS for c in GB.KINDS] + ["splice_two_ecc_blocks_for_two_selectors", "splice_block_wraps_a_prefix_of_the_key", "files_written_by_concurrent_threads", "registered_aes_is_a_chaining_engine", "encryptor_objects_reused_for_a_further_file"]
     return b
 
 
@@ -525,9 +528,98 @@ def run_threads(ns, ctx, spec):
     ctx.sample({"kind": "threads", "rounds": spec["rounds"], "line_yields": total})
 
 
+def make_engine_aes(ns):
+    """an AES-128 plug-in of the hardware-engine kind: `iv` is the chaining register of the unit - it is what the next call starts from
+    and it advances with every call (the library sets it before every use of a long-lived cipher).  Built on OpenSSL, not on pyaes."""
+
+    class EngineAES(ns.crypto.AES128):
+        calls = [0]
+
+        def __init__(self, key, iv=None):
+            self._key = bytes(key)
+            self.iv = bytes(16) if iv is None else bytes(iv)
+
+        def encrypt(self, data):
+            if len(data) == 0:
+                raise ValueError("cannot encrypt empty data")
+            EngineAES.calls[0] += 1
+            ct = ossl.aes_cbc(self._key, bytes(self.iv), ossl.pad0(bytes(data)), True)
+            self.iv = ct[-16:]
+            return ct
+
+        def decrypt(self, data):
+            if len(data) == 0 or len(data) % 16:
+                raise ValueError("ciphertext is not a whole number of AES blocks")
+            EngineAES.calls[0] += 1
+            pt = ossl.aes_cbc(self._key, bytes(self.iv), bytes(data), False)
+            self.iv = bytes(data[-16:])
+            return pt
+
+        def mac(self, data):
+            return self.encrypt(data)[-16:]
+
+    return EngineAES
+
+
+def run_engine(ns, ctx, spec):
+    """Sequences of files written with ONE list of encryptor objects (and read with one list of decryptor objects) while the registered
+    AES implementation is a chaining CBC engine: in every file of the sequence all blocks wrap the file's session key."""
+    import io
+
+    B = ns.bec2file
+    rng = ctx.rng
+    Engine = make_engine_aes(ns)
+    ns.crypto.register_AES128(Engine)
+    try:
+        for rnd in range(spec["rounds"]):
+            kinds = rng.choice((("cust", "update"), ("update", "cust"), ("cust",), ("update",), ("ecc", "update"), ("cust", "ecc", "update")))
+            specs = GB.gen_blocks(rng, kinds)
+            wenc = GB.write_encryptors(ns, specs)
+            renc = GB.read_encryptors(ns, specs)
+            for n in range(rng.choice((2, 3, 5))):
+                case = G.gen_case(rng, ncomp=rng.choice((0, 1, 2)))
+                if n % 2 == 0:
+                    from ..refs.layout import MComp
+
+                    secret = rng.randbytes(rng.choice((5, 16, 33)))
+                    case.comps.append(MComp([(0xC3, b"\x03"), (0xC2, b"\x02"), (0xC1, b"\x03"), (0xC5, b"\x01")], secret, len(secret), True))
+                key = rng.randbytes(16)
+                rp = {"kind": "engine", "blocks": GB.spec_json(specs), "file_number_with_these_encryptor_objects": n}
+                ctx.ev()
+                ctx.bin("registered_aes_is_a_chaining_engine")
+                ctx.distinct("engine", rnd, n, key)
+                if n:
+                    ctx.bin("encryptor_objects_reused_for_a_further_file")
+                try:
+                    f = B.Bec2File(G.build_real(ns, case), GB.real_auth_blocks(ns, specs), key)
+                    binary = f.to_binary(wenc)
+                except Exception as e:
+                    if any(len(c.desc_bytes()) > 210 for c in case.comps):
+                        continue
+                    ctx.violation("writer_raises_on_object_in_domain", {"exc": fmt_exc(e), "aes": "chaining engine"}, rp)
+                    break
+                if open_all(ctx, specs, binary, rp, key, case.comps) is None:
+                    break
+                try:
+                    g = B.Bec2File.read_file(io.StringIO(L.text_of(case.comments, binary)), renc)
+                    ctx.mon("read_with_reused_decryptor_objects")
+                    if bytes(g.session_key) != key:
+                        ctx.violation("reader_recovers_other_session_key", {"got": g.session_key, "expected": key, "aes": "chaining engine"}, rp)
+                        break
+                except Exception as e:
+                    ctx.violation("reader_rejects_file_whose_blocks_all_wrap_its_key", {"exc": fmt_exc(e), "aes": "chaining engine", "file_number": n}, rp)
+                    break
+        ctx.mon("engine_aes_calls", Engine.calls[0])
+    finally:
+        ns.crypto.register_AES128(ns.plugin.AES128Proxy)
+
+
 def run_shard(spec, ctx):
     ns = load()
     k = spec["kind"]
+    if k == "engine":
+        run_engine(ns, ctx, spec)
+        return
     if k == "threads":
         run_threads(ns, ctx, spec)
         return
@@ -544,6 +636,8 @@ def replay(rec, ctx):
     k = rec.get("kind")
     if k == "threads":
         run_threads(ns, ctx, {"rounds": 3})
+    elif k == "engine":
+        run_engine(ns, ctx, {"rounds": 40})
     elif k == "splice":
         run_splice(ns, ctx, {"n": 40, "i": 0})
     elif k == "fresh":
